@@ -694,8 +694,13 @@ class Bada3FuelBurnModel(BaseFuelBurnModel):
 
         fuel_flow = np.where(in_cruise, fuel_flow_cruise, fuel_flow)
 
+        # The result is a float whatever the dtype of the ground speed (an
+        # integer or single-precision array must not set the output type).
         return np.divide(
-            groundspeed, fuel_flow, out=np.zeros_like(groundspeed), where=fuel_flow != 0
+            groundspeed,
+            fuel_flow,
+            out=np.zeros_like(groundspeed, dtype=float),
+            where=fuel_flow != 0,
         )
 
     def iterate_flight_simulation_constant_initial_mass(
